@@ -37,12 +37,44 @@ inline bool op_activates(const Op& o) { return (o.k == OP_CONSTRUCT && !VX_MANUA
 static EvA g_event{41};
 static EvB g_event_b{77};
 static QA g_query{43};
+static const QB g_query_b{47};
 
 #if VX_SER
 struct SerBuf { uint8_t pre[16]; Inst::SerialBuffer buf; uint8_t post[16]; };
 static SerBuf g_loadbuf[N + 1];       // canonical buffers per activity, produced at start-up by save()
 static bool g_loadbuf_ok[N + 1];
 static SerBuf g_savebuf;
+#endif
+
+#if VX_REENTRANT
+// What user code may do from inside any callback through its context: ask the machine. A const query reaches the head and the state the
+// machine reports as active at that moment (each member of their delivery groups once, with the caller's object); save() writes the
+// canonical buffer of that activity.
+inline uint8_t reentrant_probe(Inst& m) {
+	uint8_t bits = 0; G.in_reentrant = true;
+	const uint8_t act = m.activeStateId();
+	if (act != NONE8) {
+		static const QB rq{91}; G.rq_n = 0; G.rq_event = &rq; G.rq_identity = true;
+		const Inst& cm = m; cm.query(rq);
+		unsigned seenR = 0, seenA = 0; bool ok = G.rq_identity;
+		for (int i = 0; i < G.rq_n; ++i) { if (G.rq_sid[i] == ROOT) { if (seenR & (1u << G.rq_inj[i])) ok = false; seenR |= 1u << G.rq_inj[i]; } else if (G.rq_sid[i] == act) { if (seenA & (1u << G.rq_inj[i])) ok = false; seenA |= 1u << G.rq_inj[i]; } else ok = false; }
+		unsigned wantR = 0, wantA = 0;
+		if (VX_HEAD) { wantR = 1u; for (int j = 1; j <= INJ_ROOT; ++j) wantR |= 1u << j; }
+		if (own_defined(act, M_QUERY) && !(VX_BARE && act == N - 1)) wantA |= 1u; for (int j = 1; j <= INJ_OF[act]; ++j) wantA |= 1u << j;
+		if (seenR != wantR || seenA != wantA) ok = false;
+		if (!ok) bits |= 0x20;
+	}
+#if VX_SER
+	if (VX_MANUAL || act != NONE8) {
+		static SerBuf tmp; memset(&tmp, 0xC3, sizeof tmp); m.save(tmp.buf);
+		const int a = act == NONE8 ? N : act;
+		if (g_loadbuf_ok[a] && memcmp(&tmp.buf, &g_loadbuf[a].buf, sizeof tmp.buf)) bits |= 0x10;
+		for (int i = 0; i < 16; ++i) if (tmp.pre[i] != 0xC3 || tmp.post[i] != 0xC3) bits |= 0x10;
+	}
+#endif
+	G.in_reentrant = false;
+	return bits;
+}
 #endif
 
 struct OpResult { uint8_t ret; uint8_t aux; uint8_t copyEqual; uint8_t saveOk; uint8_t heldViewStale; };
@@ -64,7 +96,7 @@ inline OpResult apply(const Op& op, int slot) {
 		if (op.a) { G.event = &g_event_b; m.react(g_event_b); break; }   // the second event type
 #endif
 		G.event = &g_event; m.react(g_event); break;
-	case OP_QUERY: G.event = &g_query; m.query(g_query); break;
+	case OP_QUERY: if (op.a) { G.event = &g_query_b; m.query(g_query_b); } else { G.event = &g_query; m.query(g_query); } break;   // a = 1: a const query object
 #if VX_TFORM
 	case OP_CHANGE: tdispatch<TF_Change>(op.a, m); break;
 	case OP_IMM: tdispatch<TF_Imm>(op.a, m); break;
@@ -161,6 +193,7 @@ inline void op_text(Text& t, const Op& op) {
 	case OP_PLAN_CHANGEW: t.add("plan.changeWith(%d,%d,p%d)", op.a, op.b, op.c); break;
 	case OP_PLAN_REMOVE: t.add("plan.iterate-remove(mask=%u)", op.a); break;
 	case OP_REACT: t.add(op.a ? "react(EvB)" : "react()"); break;
+	case OP_QUERY: t.add(op.a ? "query(const QB)" : "query()"); break;
 	default: t.add("%s()", OP_NAME[op.k]); break;
 	}
 }
